@@ -73,7 +73,8 @@ class Sample:
         self._multi_sites = {
             m.pos: m.op
             for _, a in gene.alleles.items()
-            for m in a.func_muts
+            for ms in [a.func_muts, *(i.neutral_muts for i in a.minors.values())]
+            for m in ms
             if ">" in m.op and len(m.op) > 3
         }
         """Multi-substitutions (e.g., `A.C>T.G`)."""
